@@ -155,3 +155,24 @@ def renumber_blocks(s):
             m[k] = str(len(m) + 1)
         return "block:" + m[k]
     return _BLK.sub(f, s)
+
+
+def block_shape(tree, skip=()):
+    """Block structure of a parse tree: (class name, [children]) for block nodes, (class name, text)
+    for statements; nodes whose class name starts with one of `skip` are left out."""
+    def rec(n):
+        nm = type(n).__name__
+        if isinstance(n, utils.BlockBase):
+            if not skip:
+                return (nm, [rec(c) for c in n.content])
+            kids = [rec(c) for c in n.content if not type(c).__name__.startswith(tuple(skip))]
+            # a container left empty once the skipped nodes are gone existed only to hold them
+            kids = [k for k in kids if not (isinstance(k[1], list) and not k[1])]
+            return (nm, kids)
+        return (nm, renumber_blocks(str(n)))
+    return rec(tree)
+
+
+def comment_nodes(tree):
+    """texts of the Comment / Directive nodes in source order with their class names"""
+    return [(type(n).__name__, str(n)) for n in utils.walk(tree, (F3.Comment, F3.Directive))]
